@@ -1,6 +1,8 @@
 """C07 — slices and negative indexes.  Theorems: lean/JmesVerif/Props/C07.lean."""
 import os
 import common as C
+import gen as G
+import streams as S
 
 ID = "C07"
 MODULE = "JmesVerif.Props.C07"
@@ -137,6 +139,44 @@ def run(ctx):
                               "implementation differs from Python's slice/index rule (Spec.pySlice / Spec.pyIndex)")
         if len(ctx.samples) < 6 and (ctx.evaluations % 997 == 1 or len(ctx.samples) < 2):
             ctx.samples.append(dict(case=case, implementation=i, model=m))
+    # the two remaining clauses, end to end: step 0 on an array (of any length, wherever the slice stands) is the invalid-value error;
+    # slicing anything that is not an array yields null
+    if not getattr(ctx, "replay", None) or ctx.replay.get("stream") == "eval":
+        rng = ctx.rng
+        ev = []
+        arrs = ["[ ]", "[ u1 ]", "[ u1 u2 u3 ]", "[ [ ] [ u1 ] ]", "[ n ]"]
+        nonarr = ["n", "t", "u5", G.enc_str("abc"), G.enc_str(""), "{ }", "{ " + G.enc_str("a") + " [ u1 ] }"]
+        wraps = ["%s", "@%s", "a%s", "a%s.b", "a%s[0]", "%s | [0]", "a[?@ > `5`] | @%s", "[a%s, `1`]", "{k: a%s}", "a[*]%s", "length(a%s)", "a%s || `1`"]
+        import itertools
+        for _ in range(600 if ctx.tier == "quick" else 40000):
+            a, b = (rng.choice(["", "", "0", "1", "-1", "2", "-3", "2147483647", "-2147483647"]) for _ in range(2))
+            st = rng.choice(["0", "0", "0", "1", "-1", "2", ""])
+            sl = "[%s:%s:%s]" % (a, b, st) if st != "" or rng.random() < 0.5 else "[%s:%s]" % (a, b)
+            w = rng.choice(wraps)
+            base = rng.choice(arrs + nonarr)
+            doc = base if w in ("%s", "@%s", "%s | [0]") else "{ " + G.enc_str("a") + " " + base + " }"
+            ev.append((w % sl, doc, sl, w, base))
+        if getattr(ctx, "replay", None):
+            ev = [tuple(ctx.replay["case"])]
+        im2, mo2 = S.eval_run(ctx, [(e, d) for e, d, *_ in ev])
+        kinds["eval_step0_array"] = kinds["eval_nonarray"] = 0
+        for (e, d, sl, w, base), i, m in zip(ev, im2, mo2):
+            ctx.evaluations += 1
+            ci, cm = S.canon_eval(i), S.canon_eval(m)
+            zero = sl.count(":") == 2 and sl.endswith(":0]")
+            direct = w in ("%s", "@%s", "a%s", "%s | [0]", "[a%s, `1`]", "{k: a%s}", "a%s || `1`", "length(a%s)", "a%s.b", "a%s[0]")
+            if zero and direct and base in arrs:
+                kinds["eval_step0_array"] += 1
+                if "invalid-slice" not in ci:
+                    ctx.violation("eval", [e, d, sl, w, base], ci[:200], "the invalid-slice (invalid value) error", "step 0 must be an error on every array, also an empty one")
+                    continue
+            if not zero and base in nonarr and w in ("%s", "@%s", "a%s"):
+                kinds["eval_nonarray"] += 1
+                if ci != "ok n":
+                    ctx.violation("eval", [e, d, sl, w, base], ci[:200], "ok n", "slicing a value that is not an array yields null")
+                    continue
+            if ci != cm:
+                ctx.violation("eval", [e, d, sl, w, base], ci[:200], cm[:200], "slice evaluation differs from the model of the code")
     ctx.coverage["case_kinds"] = kinds
     ctx.coverage["exhaustive"] = False
-    ctx.coverage["streams"] = ["slice"]
+    ctx.coverage["streams"] = ["slice", "eval"]
